@@ -139,6 +139,39 @@ def run_case(case, extra):
             if not ok and t.get("error") != "States.DataLimitExceeded":
                 findings.append({"property": PROP, "rule": "error-type", "witness": place,
                                  "detail": "size %d failed with %r" % (n, t.get("error"))})
+    elif place == "first-state-after-compact-input":
+        # an input text the API accepts (<= L as sent) whose re-serialisation by the engine is longer than L: whichever
+        # text the engine measures for the first state's output, the execution has to END (SUCCEEDED, or FAILED with
+        # States.DataLimitExceeded) - for every type of first state
+        first = {"Pass": {"Type": "Pass", "Next": "Z"}, "Choice": {"Type": "Choice", "Choices": [
+                    {"Variable": "$.s", "IsString": True, "Next": "Z"}], "Default": "Z"},
+                 "Choice-default": {"Type": "Choice", "Choices": [{"Variable": "$.s", "IsString": False, "Next": "Z"}],
+                                    "Default": "Z"},
+                 "Wait": {"Type": "Wait", "Seconds": 1, "Next": "Z"}, "Succeed": {"Type": "Succeed"},
+                 "Task": {"Type": "Task", "Resource": F + "small", "ResultPath": "$.r", "Next": "Z"},
+                 "Parallel": {"Type": "Parallel", "ResultPath": "$.r", "Next": "Z", "Branches": [
+                     {"StartAt": "A", "States": {"A": {"Type": "Pass", "Result": 1, "End": True}}}]},
+                 "Map": {"Type": "Map", "ItemsPath": "$.k", "MaxConcurrency": 1, "ResultPath": "$.r", "Next": "Z",
+                         "ItemProcessor": {"StartAt": "A", "States": {"A": {"Type": "Pass", "Result": 1, "End": True}}}}}[shape]
+        states = {"F": first, "Z": {"Type": "Pass", "Result": "small", "End": True}}
+        w = World(1, execution_ttl=600, script={"small": [{"ok": {"op": "const", "value": 1}}]}, functions=["small"])
+        arn = w.create_machine("m", {"StartAt": "F", "States": states})
+        head = '{"k":[%s],"s":"' % ",".join("1" for _ in range(4))
+        text = head + "c" * (L + delta - len(head) - 2) + '"}'
+        assert len(text) == L + delta and len(json.dumps(json.loads(text))) > L + delta
+        rec = w.api_sync(w.nodes[0], "StartExecution", {"stateMachineArn": arn, "name": "e", "input": text})
+        findings += verdict(True, rec["status"] == 200, "start-execution-input", len(text), L, "%s" % rec["status"])
+        if rec["status"] == 200:
+            w.run_quiescent(limit=700)
+            t = terminal(w, rec["json"]["executionArn"])
+            if t is None:
+                findings.append({"property": PROP, "rule": "never-terminal", "witness": "first-state:" + shape,
+                                 "detail": "input text of %d characters accepted by StartExecution (%d when the engine writes "
+                                           "it), first state %s: the execution never ended" % (
+                                               len(text), len(json.dumps(json.loads(text))), shape)})
+            elif t["status"] == "FAILED" and t.get("error") != "States.DataLimitExceeded":
+                findings.append({"property": PROP, "rule": "error-type", "witness": place, "detail": repr(t.get("error"))})
+            info["ended"] = t and t["status"]
     elif place in ("parallel-output", "map-output"):
         # array of two strings; text size depends on the separator (", " vs ","), one character of slack
         n = L + delta
@@ -291,6 +324,9 @@ def main(argv):
     cases = [(p, d) for p in PLACES for d in DELTAS] + [("definition-empty", 0), ("names", 0)]
     cases += [("%s:%s" % (p, sh), d) for p in ("start-execution-input", "start-sync-execution-input", "callback-output")
               for sh in SHAPES for d in DELTAS]
+    cases += [("first-state-after-compact-input:%s" % st, d) for st in ("Pass", "Choice", "Choice-default", "Wait",
+                                                                        "Succeed", "Task", "Parallel", "Map")
+              for d in (-1000, -3, -2, -1, 0)]
     cases.append(("history-limit", 0))
     cases.append(("history-limit-retry", 0))
     rep = common.Report(PROP)
@@ -304,7 +340,7 @@ def main(argv):
              "character of separator slack accepted); definitions of 1048576-2..+2 characters and empty; names of length "
              "0, 1, 80, 81 and one per forbidden character for state machines and executions; the three API inputs "
              "also as texts whose re-serialisation is shorter (whitespace padded) or longer (compact separators) than what "
-             "was sent; a counting loop and a Task retried for ever, each driven past 25000 history events; accepted <=> size <= L with the documented error type / "
+             "was sent; an input text accepted at the API whose re-serialisation is over the limit, met by a first state of every type (the execution has to end); a counting loop and a Task retried for ever, each driven past 25000 history events; accepted <=> size <= L with the documented error type / "
              "States.DataLimitExceeded otherwise; 'exhaustive' = the listed +-2 windows are enumerated completely",
         assumptions=["ASCII payloads only (characters = bytes = JSON text length)",
                      "single schedule: these are size boundaries, the simulator is used to reach the enforcement points"])
